@@ -57,7 +57,7 @@ func C10setwires(p *load.Program, run *report.Run) {
 	for _, widths := range widthsSets {
 		for _, descending := range []bool{false, true} {
 			key := fmt.Sprintf("gmw.Network.setWires/widths=%v/desc=%v", widths, descending)
-			ev := &swEval{info: info, peerObj: params[0], inputObj: params[1], widths: widths, big: map[string]bitvec{}}
+			ev := &swEval{info: info, peerObj: params[0], inputObj: params[1], widths: widths, big: map[string]bitvec{}, elemOf: map[types.Object]int{}}
 			order := []int{}
 			for o := range widths {
 				order = append(order, o)
@@ -130,6 +130,16 @@ type swEval struct {
 	inputObj types.Object
 	widths   []int
 	party    int
+	// elemOf: a range value variable bound to element k of the width tuple (its .Type.Bits is widths[k])
+	elemOf map[types.Object]int
+	// memberCall: a method call on such an element that yields that member's bits (plus excess bits)
+	memberCall string
+	// seqSuffix: the selector suffix of the sequence whose length is the number of widths (".Inputs", ".Compound")
+	seqSuffix string
+	ret       bitvec
+	returned  bool
+	// lenOf: lengths of slice parameters
+	lenOf map[types.Object]int
 	ints     map[types.Object]int
 	locals   map[types.Object]bitvec
 	big      map[string]bitvec // receiver field -> vector
@@ -157,7 +167,7 @@ func (e *swEval) inputVec() bitvec {
 
 func (e *swEval) block(list []ast.Stmt) {
 	for _, st := range effectiveQ(e.info, list) {
-		if e.fail != "" {
+		if e.fail != "" || e.returned {
 			return
 		}
 		e.stmt(st)
@@ -196,6 +206,15 @@ func (e *swEval) stmt(st ast.Stmt) {
 			}
 		}
 	case *ast.AssignStmt:
+		if len(s.Lhs) == 2 && len(s.Rhs) == 1 {
+			// v, err := <member>.Parse(...)
+			if id, ok := s.Lhs[0].(*ast.Ident); ok && isBigInt(e.info.TypeOf(id)) {
+				if v, ok := e.memberValue(s.Rhs[0]); ok {
+					e.locals[e.info.ObjectOf(id)] = v
+					return
+				}
+			}
+		}
 		if len(s.Lhs) != 1 || len(s.Rhs) != 1 {
 			e.bad("multi-assignment not modelled")
 			return
@@ -257,6 +276,22 @@ func (e *swEval) stmt(st ast.Stmt) {
 			}
 		}
 	case *ast.RangeStmt:
+		if e.seqSuffix != "" && strings.HasSuffix(types.ExprString(s.X), e.seqSuffix) {
+			// for k, m := range <seq>: m is element k of the width tuple
+			for k := range e.widths {
+				if id, ok := s.Key.(*ast.Ident); ok && id.Name != "_" {
+					e.ints[e.info.ObjectOf(id)] = k
+				}
+				if id, ok := s.Value.(*ast.Ident); ok && id.Name != "_" {
+					e.elemOf[e.info.ObjectOf(id)] = k
+				}
+				e.block(s.Body.List)
+				if e.fail != "" || e.returned {
+					return
+				}
+			}
+			return
+		}
 		// for i := range N
 		id, ok := s.Key.(*ast.Ident)
 		if !ok || s.Value != nil {
@@ -295,6 +330,13 @@ func (e *swEval) stmt(st ast.Stmt) {
 		e.bigVal(call)
 	case *ast.BlockStmt:
 		e.block(s.List)
+	case *ast.ReturnStmt:
+		if len(s.Results) > 0 && isBigInt(e.info.TypeOf(s.Results[0])) {
+			if id, ok := ast.Unparen(s.Results[0]).(*ast.Ident); !ok || id.Name != "nil" {
+				e.ret = e.bigGet(s.Results[0])
+			}
+		}
+		e.returned = true
 	default:
 		e.bad("statement %T not modelled", st)
 	}
@@ -319,6 +361,12 @@ func (e *swEval) cond(x ast.Expr) bool {
 		return e.cond(be.X) && e.cond(be.Y)
 	case token.LOR:
 		return e.cond(be.X) || e.cond(be.Y)
+	}
+	// err != nil: the honest path has no error
+	if t := e.info.TypeOf(be.X); t != nil && t.String() == "error" {
+		if id, ok := ast.Unparen(be.Y).(*ast.Ident); ok && id.Name == "nil" {
+			return be.Op == token.EQL
+		}
 	}
 	a, b := e.intVal(be.X), e.intVal(be.Y)
 	switch be.Op {
@@ -360,7 +408,12 @@ func (e *swEval) intVal(x ast.Expr) int {
 			}
 		}
 		if id, ok := t.Fun.(*ast.Ident); ok && id.Name == "len" && len(t.Args) == 1 {
-			if strings.HasSuffix(types.ExprString(t.Args[0]), ".Inputs") {
+			if aid, ok := ast.Unparen(t.Args[0]).(*ast.Ident); ok {
+				if n, ok := e.lenOf[e.info.ObjectOf(aid)]; ok {
+					return n
+				}
+			}
+			if strings.HasSuffix(types.ExprString(t.Args[0]), ".Inputs") || (e.seqSuffix != "" && strings.HasSuffix(types.ExprString(t.Args[0]), e.seqSuffix)) {
 				return len(e.widths)
 			}
 		}
@@ -370,6 +423,16 @@ func (e *swEval) intVal(x ast.Expr) int {
 		if id, ok := t.X.(*ast.Ident); ok && e.info.ObjectOf(id) == e.peerObj {
 			if bt, ok := e.info.TypeOf(t).Underlying().(*types.Basic); ok && bt.Info()&types.IsInteger != 0 {
 				return e.party
+			}
+		}
+		// <element>.Type.Bits for a range value bound to element k
+		if t.Sel.Name == "Bits" {
+			if in, ok := t.X.(*ast.SelectorExpr); ok {
+				if id, ok := in.X.(*ast.Ident); ok {
+					if k, ok := e.elemOf[e.info.ObjectOf(id)]; ok {
+						return e.widths[k]
+					}
+				}
 			}
 		}
 		// ….Inputs[k].Type.Bits  (also ….Inputs[k].Type.Bits through a local)
@@ -601,4 +664,30 @@ func (e *swEval) bigVal(x ast.Expr) bitvec {
 	}
 	e.bigSet(sel.X, res)
 	return res
+}
+
+// memberValue: <element>.<memberCall>(…) yields the bits of member k followed by excess bits
+// (a negative or over-wide literal is longer than the member).
+func (e *swEval) memberValue(x ast.Expr) (bitvec, bool) {
+	call, ok := ast.Unparen(x).(*ast.CallExpr)
+	if !ok || e.memberCall == "" {
+		return nil, false
+	}
+	sel, ok := call.Fun.(*ast.SelectorExpr)
+	if !ok || sel.Sel.Name != e.memberCall {
+		return nil, false
+	}
+	id, ok := sel.X.(*ast.Ident)
+	if !ok {
+		return nil, false
+	}
+	k, ok := e.elemOf[e.info.ObjectOf(id)]
+	if !ok {
+		return nil, false
+	}
+	save := e.party
+	e.party = k
+	v := e.inputVec()
+	e.party = save
+	return v, true
 }
